@@ -133,4 +133,29 @@ theorem rename_example :
     (assemble renProg).toOption = some [.jif .eq 1#32 1 0, .ret 5#32, .ret 7#32] ∧
     (assemble (renameToks (fun _ => 3) renProg)).toOption ≠ (assemble renProg).toOption := by decide +kernel
 
+/-! non-vacuity of `group_program_any_numbering`: an explicit numbering of the structured labels (Cantor pairing, one
+    residue class per constructor) that keeps the labels of a concrete group program — one unconditional entry, one
+    conditional entry with a two-condition list — distinct -/
+
+def pairN (a b : Nat) : Nat := (a + b) * (a + b + 1) / 2 + b
+
+def plCode : PL → Nat
+  | .action => 0
+  | .nextSys e => 6 * e + 1
+  | .afterNr e => 6 * e + 2
+  | .noMatch e l => 6 * pairN e l + 3
+  | .nextArg e l c => 6 * pairN (pairN e l) c + 4
+  | .nextIns e l c j => 6 * pairN (pairN (pairN e l) c) j + 5
+
+instance {M : Type} [DecidableEq M] (f : PL → M) (S : List PL) : Decidable (InjOn f S) := by
+  unfold InjOn; infer_instance
+
+def numProg : List (Tok PL) :=
+  groupToks { hiOff := fun i => 16 + 8 * i + 4, loOff := fun i => 16 + 8 * i }
+    [.uncond 1#32, .cond 2#32 [[⟨0, .eq, 5#64⟩, ⟨1, .gt, 7#64⟩]]] 0x7fff0000#32
+
+theorem numbering_example :
+    InjOn plCode (mentioned numProg) ∧ 10 < (mentioned numProg).length ∧
+    (assemble (renameToks plCode numProg)).toOption = (assemble numProg).toOption := by decide +kernel
+
 end C06
